@@ -398,12 +398,30 @@ theorem c09_whfast_variational_rescale_forces_recalculation (c c' : Config) (f :
       r.2.1.isSync = true ∧ r.2.1.recalc = true ∧ Prim.fromInertial ∈ (vStepCore c' r.2.1).1 ∧
       vMagStep c' r.2.1 r.2.2.1 = ⟨false, false⟩) ∧
     (r.2.2.2 = false → (vMagStep c f m).bigP = true → r.2.1.isSync = false ∧ r.2.1 = (vStepOps c f).2) := by
-  obtain ⟨isSync, recalc, allocated⟩ := f
-  obtain ⟨bp, bj⟩ := m
-  cases isSync <;> cases recalc <;> cases allocated <;> cases bp <;> cases bj <;>
-    cases hs : c.safe <;> cases hk : c.keep <;> cases hp : c.p1fix <;> cases hv : c.vfix <;>
-    cases hs' : c'.safe <;> cases hp' : c'.p1fix <;>
-    simp [vOpOpsR, vRescaleF, vMagStep, vStepOps, vStepCore, vPart1Ops, vPart2Ops, vSyncOps, initF, hs, hk, hp, hv, hs', hp']
+  intro r
+  have hr : r = ((vStepOps c f).1, vRescaleF true c (vStepOps c f).2 (vMagStep c f m)) := rfl
+  generalize (vStepOps c f).2 = g at hr
+  generalize vMagStep c f m = m' at hr
+  have key : ∀ fl : Flags, fl.recalc = true → Prim.fromInertial ∈ (vStepCore c' fl).1 := by
+    intro fl h
+    have hi : (initF fl).recalc = true := by unfold initF; split <;> simp [h]
+    unfold vStepCore vPart1Ops
+    simp [hi]
+  have mag : ∀ (fl : Flags) (mm : VMag), fl.recalc = true → mm.bigP = false →
+      vMagStep c' fl mm = ⟨false, false⟩ := by
+    intro fl mm h hb
+    have hi : (initF fl).recalc = true := by unfold initF; split <;> simp [h]
+    simp [vMagStep, hi, hb]
+  rw [hr]
+  unfold vRescaleF
+  by_cases hc : (m'.bigP && g.isSync) = true
+  · simp only [hc, if_true]
+    have hg : g.isSync = true := by simp at hc; exact hc.2
+    refine ⟨fun _ => ⟨hg, by simp, key _ (by simp), mag _ _ (by simp) rfl⟩, fun h => by simp at h⟩
+  · simp only [hc, if_false]
+    refine ⟨fun h => by simp at h, fun _ hb => ⟨?_, rfl⟩⟩
+    simp [hb] at hc
+    simpa using hc
 
 /-- **The source as found rescales the same magnitude twice when safe_mode is switched off right
     after a rescaling** (finding C09:rescale-var-stale-pjh-after-safe-mode-off; `rfix = false`): a
@@ -717,7 +735,7 @@ example : Laws demoSem where
   ev_half := by decide
   ev_comp := by decide
 
-example : SabaLaws demoSem ⟨0x101, false, false, false, false⟩ where
+example : SabaLaws demoSem ⟨0x101, false, false, false, false, false⟩ where
   kepler_add := by intro a b p; simp only [demoSem]; ext <;> simp; ring
   com_add := by intro a b p; simp only [demoSem]; ext <;> simp; ring
   kepler_com := by intro a b p; rfl
